@@ -305,7 +305,7 @@ def run(chk):
     for t in ts:
         if t.kind != "zero" or "Y" not in t.roles or "X" in t.roles or "Z" in t.roles:
             continue
-        out = identity_outcome(t.stmt, t.node)
+        out = identity_outcome(t)
         if out is None and isinstance(t.stmt, ast.If) and t.stmt.body and isinstance(t.stmt.body[0], ast.Return) and isinstance(t.stmt.body[0].value, ast.BinOp):
             out = "identity fallback"
         if out is None:
